@@ -85,15 +85,25 @@ func runACL(c aclCase) (viol []rec.Violation, counts map[string]int64, inconclus
 	}
 	for _, bypass := range []bool{false, true} {
 		for _, m := range methods {
-			a.local.take()
-			code := callMethod(conn, m, bypass)
-			time.Sleep(time.Millisecond)
-			calls := a.local.take()
+			var code codes.Code
 			n := 0
-			for _, cr := range calls {
-				if cr.Method == m.FullName {
-					n++
+			// the streaming method is judged by a stream that stays open for 1.5 s of real time: a stream that ended
+			// early with a transport-level status and never reached the local cluster is tried again (twice) before
+			// anything is concluded - a stable refusal or a stable loss shows on every attempt
+			for attempt := 0; attempt < 3; attempt++ {
+				a.local.take()
+				code = callMethod(conn, m, bypass)
+				time.Sleep(time.Millisecond)
+				n = 0
+				for _, cr := range a.local.take() {
+					if cr.Method == m.FullName {
+						n++
+					}
 				}
+				if !(m.ClientStreaming || m.ServerStreaming) || n > 0 || code == codes.PermissionDenied || code == codes.Unimplemented {
+					break
+				}
+				counts["stream_attempts_repeated"]++
 			}
 			counts["rpcs"]++
 			if code == codes.Unavailable || code == codes.DeadlineExceeded {
